@@ -30,7 +30,10 @@ Step1(r, input, data, acc) ==
              [acc EXCEPT !.bad = "store into the image outside its data words"]
           ELSE IF sp > acc.sp0 \/ Rd(t.mem, 1) > acc.sp0 THEN [acc EXCEPT !.bad = "stack pointer above its load-time value"]
           ELSE IF s.pc = r.exitpc /\ sp # acc.sp0 THEN [acc EXCEPT !.bad = "stack pointer not restored when main returned"]
-          ELSE [acc EXCEPT !.s = t, !.fetched = @ \cup {ac.f}, !.stored = @ \cup ac.w,
+          ELSE [acc EXCEPT !.s = t, !.fetched = @ \cup {ac.f},
+                           \* only stores into the image need remembering: a store above the image can meet a fetch only if code runs outside
+                           \* the image, which is recorded separately (keeps the set small on deep recursion)
+                           !.stored = @ \cup {w \in ac.w : w < r.imgwords}, !.high = @ \/ ac.f >= r.imgwords,
                            !.spmin = IF Rd(t.mem, 1) < @ THEN Rd(t.mem, 1) ELSE @,
                            !.exits = IF s.pc = r.exitpc THEN @ + 1 ELSE @]
 Chunk == [i \in 1..512 |-> i]
@@ -42,13 +45,14 @@ RunFrom(r, input, data, acc) ==
 Verdict(r) ==
   LET m0 == MemOf(r.img)
       data == {r.datawords[i] : i \in 1..Len(r.datawords)}
-      f == RunFrom(r, InputOf(r), data, [s |-> State0(m0), fetched |-> {}, stored |-> {}, bad |-> "", sp0 |-> Rd(m0, 1),
+      f == RunFrom(r, InputOf(r), data, [s |-> State0(m0), fetched |-> {}, stored |-> {}, high |-> FALSE, bad |-> "", sp0 |-> Rd(m0, 1),
                                          spmin |-> Rd(m0, 1), exits |-> 0])
       clash == f.fetched \cap f.stored
       base == [id |-> r.id, n |-> f.s.n, st |-> f.s.st, nfetched |-> Cardinality(f.fetched), nstored |-> Cardinality(f.stored),
                stackwords |-> f.sp0 - f.spmin, exits |-> f.exits, xv |-> f.s.xv]
   IN IF f.bad # "" THEN base @@ [v |-> IF SubSeq(f.bad, 1, 6) = "other:" THEN "other" ELSE "bad", why |-> f.bad]
      ELSE IF clash # {} THEN base @@ [v |-> "bad", why |-> "store into a word from which an instruction is fetched"]
+     ELSE IF f.high THEN base @@ [v |-> "other", why |-> "executes instructions outside the image"]
      ELSE IF f.s.st = "run" THEN base @@ [v |-> "fuel", why |-> ""]
      ELSE base @@ [v |-> "ok", why |-> ""]
 Init == done = FALSE
